@@ -144,6 +144,62 @@ def split_type(decl):
     raise PyxTranslateError("unknown type in declaration: %r" % decl)
 
 
+CAST_RE = re.compile(r"<\s*(unsigned char|unsigned int|unsigned long|char|int|long|Py_ssize_t|double|bint)\s*>\s*")
+
+
+def _primary_end(text, i):
+    """index just after the primary expression starting at text[i] (identifier/number with call/index/attribute
+    trailers, or a parenthesised expression, optionally preceded by a unary minus)."""
+    n = len(text)
+    if i < n and text[i] in "+-":
+        i += 1
+    if i < n and text[i] == "(":
+        depth = 0
+        while i < n:
+            if text[i] in "([{":
+                depth += 1
+            elif text[i] in ")]}":
+                depth -= 1
+                if depth == 0:
+                    i += 1
+                    break
+            i += 1
+    else:
+        j = i
+        while j < n and (text[j].isalnum() or text[j] in "_."):
+            j += 1
+        if j == i:
+            raise PyxTranslateError("cannot find the operand of a cast in %r" % text)
+        i = j
+    while i < n and text[i] in "([":
+        depth = 0
+        while i < n:
+            if text[i] in "([{":
+                depth += 1
+            elif text[i] in ")]}":
+                depth -= 1
+                if depth == 0:
+                    i += 1
+                    break
+            i += 1
+    return i
+
+
+def rewrite_casts(line):
+    """<T> primary  ->  _co('T', primary)   (a C cast binds tighter than any binary operator)."""
+    for _ in range(20):
+        m = None
+        for m_ in CAST_RE.finditer(line):
+            m = m_                      # innermost-last first
+        if m is None:
+            break
+        end = _primary_end(line, m.end())
+        line = line[:m.start()] + "_co(%r, %s)" % (m.group(1), line[m.end():end]) + line[end:]
+    if re.search(r"<\s*(unsigned|char|int|long|double)\b[^<>=]*>\s*[\w(]", line) and "_co(" not in line:
+        raise PyxTranslateError("unhandled cast: %r" % line)
+    return line
+
+
 def translate(src):
     """returns (python_source, exported_names, typed_locals {func: {name: type}})."""
     out = []
@@ -166,7 +222,16 @@ def translate(src):
         if stripped.startswith("# cython:") or stripped.startswith("@cython."):
             continue
         if stripped.startswith("cimport ") or " cimport " in stripped:
-            if "libc.math" in stripped or stripped in ("cimport cython",) or "cpython" in stripped:
+            m = re.match(r"^from\s+libc\.math\s+cimport\s+(.*)$", stripped)
+            if m:
+                for item in [x.strip() for x in m.group(1).split(",") if x.strip()]:
+                    src_name, _, alias = item.partition(" as ")
+                    src_name, alias = src_name.strip(), (alias.strip() or src_name.strip())
+                    if src_name == "abs":
+                        continue                                  # builtin abs
+                    out.append("%s = _libm(%r)" % (alias, src_name))
+                continue
+            if stripped in ("cimport cython",) or "cpython" in stripped:
                 continue
             raise PyxTranslateError("unsupported cimport: %r" % stripped)
         m = re.match(r"^(cpdef|cdef)\s+(.*?)(\w+)\((.*)\)\s*:\s*$", stripped)
@@ -199,7 +264,7 @@ def translate(src):
             out.append(line)
             continue
         if stripped.startswith("cdef "):
-            body = stripped[5:]
+            body = rewrite_casts(stripped[5:])
             if "=" in body:
                 decl, expr = [x.strip() for x in body.split("=", 1)]
             else:
@@ -240,13 +305,7 @@ def translate(src):
             continue
         if re.match(r"^(cdef|cpdef|ctypedef|cimport|include|DEF|IF)\b", stripped):
             raise PyxTranslateError("unsupported Cython statement: %r" % stripped)
-        # casts  <T> expr   (to the end of the statement)
-        m = re.search(r"<\s*([A-Za-z_ ]+?)\s*>\s*(.+)$", line)
-        if m and m.group(1).strip() in INT_TYPES or (m and m.group(1).strip() == "double"):
-            line = line[:m.start()] + "_co(%r, %s)" % (m.group(1).strip(), m.group(2))
-        if re.search(r"<\s*(unsigned|char|int|long|double)\b[^>]*>", line):
-            raise PyxTranslateError("unhandled cast: %r" % line)
-        out.append(line)
+        out.append(rewrite_casts(line))
     return "\n".join(out) + "\n", exported, hidden, typed
 
 
@@ -294,6 +353,27 @@ def build_source(src):
     return tree, exported, hidden, py
 
 
+def libm(name):
+    """a libc.math name as a Python callable/constant with C semantics (doubles in, double out)."""
+    import math
+    consts = {"M_PI": math.pi, "M_E": math.e, "M_PI_2": math.pi / 2}
+    if name in consts:
+        return consts[name]
+    special = {"floor": lambda x: float(math.floor(x)), "ceil": lambda x: float(math.ceil(x)),
+               "round": lambda x: float(math.floor(abs(x) + 0.5)) * (1 if x >= 0 else -1), "trunc": lambda x: float(math.trunc(x)),
+               "fabs": math.fabs, "sqrt": lambda x: math.sqrt(x) if x >= 0 else float("nan"),
+               "acos": lambda x: math.acos(x) if -1 <= x <= 1 else float("nan"),
+               "asin": lambda x: math.asin(x) if -1 <= x <= 1 else float("nan"),
+               "log": lambda x: math.log(x) if x > 0 else (float("-inf") if x == 0 else float("nan")),
+               "log10": lambda x: math.log10(x) if x > 0 else (float("-inf") if x == 0 else float("nan")),
+               "pow": lambda a, b: math.pow(a, b), "fmod": math.fmod}
+    if name in special:
+        return special[name]
+    if hasattr(math, name):
+        return getattr(math, name)
+    raise PyxTranslateError("unknown libc.math name %r" % name)
+
+
 def build(path, name="pyModeS.c_common", text=None):
     import array
     import math
@@ -304,9 +384,7 @@ def build(path, name="pyModeS.c_common", text=None):
         src = text
     tree, exported, hidden, py = build_source(src)
     ns = {
-        "_co": co, "_dflt": dflt, "_MV": MV, "_carr": carr, "_sig": sig, "array": array,
-        "cos": math.cos, "acos": math.acos, "fabs": math.fabs, "pi": math.pi,
-        "c_floor": lambda x: float(math.floor(x)),
+        "_co": co, "_dflt": dflt, "_MV": MV, "_carr": carr, "_sig": sig, "array": array, "_libm": libm,
         "PyBytes_GET_SIZE": len, "PyByteArray_GET_SIZE": len,
         "__name__": name,
     }
